@@ -7,9 +7,9 @@ Wire format of a VALUE (input):  ["none"] | ["int", "<decimal text>"] | ["flt", 
 Wire format of an exported ParamValue (output):  ["lit", cps] | ["int", "<text>"] | ["dbl", "<64-bit pattern>"] | ["strv", cps]
   | ["pre", "int"|"str"|"dbl", payload, SIPrefix name]
 A Decimal is [sign, coefficient as text, exponent] (as_tuple); strings travel as lists of code points."""
-import struct, enum
+import struct, enum, fractions, numbers
 from decimal import Decimal
-from typing import Optional
+from typing import Optional, Any
 from common import main
 import hdl21 as h
 import hdl21.primitives as hp
@@ -32,6 +32,14 @@ class NE(enum.Enum):          # enum whose values are not strings: the exporter 
     TWO = 2.5
 
 
+class SXE(str, enum.Enum):   # the common "string enum" idiom: every member is a str AND an Enum member
+    TYP = "tt_025C_1v80"
+    FAST = "ff_n40C_1v95"
+    NUM = "1e3"
+    EMPTY = ""
+    SP = " a b "
+
+
 @h.paramclass
 class XP:
     s = h.Param(dtype=Scalar, desc="required scalar")
@@ -43,11 +51,14 @@ class XP:
     d = h.Param(dtype=Optional[Decimal], desc="Decimal", default=None)
     p = h.Param(dtype=Optional[Prefixed], desc="Prefixed", default=None)
     l = h.Param(dtype=Optional[Literal], desc="Literal", default=None)
+    se = h.Param(dtype=SXE, desc="str-and-Enum member", default=SXE.TYP)
+    a = h.Param(dtype=Any, desc="anything, stored as given", default=None)
 
 
 # kind: 0 Scalar, 1 Optional[Scalar], 2 Optional[str], 3 string enum, 4 other type, no conversion
 XP_FIELDS = [["s", 0, ["req"]], ["os", 1, ["none"]], ["i", 4, ["none"]], ["f", 4, ["none"]], ["t", 2, ["none"]],
-             ["e", 3, ["enum", "XE", "A"]], ["d", 4, ["none"]], ["p", 4, ["none"]], ["l", 4, ["none"]]]
+             ["e", 3, ["enum", "XE", "A"]], ["d", 4, ["none"]], ["p", 4, ["none"]], ["l", 4, ["none"]],
+             ["se", 3, ["obj", "sxe", "TYP"]], ["a", 4, ["none"]]]
 
 ENUMS = dict(XE=XE, NE=NE, MosType=hp.MosType, MosVth=hp.MosVth, MosFamily=hp.MosFamily, BipolarType=hp.BipolarType)
 
@@ -78,6 +89,166 @@ class Opaque:
     pass
 
 
+# ---- objects that pass several isinstance tests of the parameter path, or are subclass instances whose str() / repr() /
+#      format() say something else than their content ("obj" values; see harness/vp/c13.py SHAPES)
+class StrSub(str):
+    def __str__(self):
+        return "StrSub!"
+
+    def __repr__(self):
+        return "StrSub?"
+
+    def __format__(self, spec):
+        return "StrSub#"
+
+
+class IntSub(int):
+    def __str__(self):
+        return "77"
+
+    def __repr__(self):
+        return "78"
+
+    def __format__(self, spec):
+        return "79"
+
+
+class FltSub(float):
+    def __str__(self):
+        return "7.5"
+
+    def __repr__(self):
+        return "8.5"
+
+    def __format__(self, spec):
+        return "9.5"
+
+
+class DecSub(Decimal):            # str(Decimal) is the exporter's own route: left alone
+    def __repr__(self):
+        return "DecSub?"
+
+    def __format__(self, spec):
+        return "7.25"
+
+
+class LitSub(Literal):
+    def __str__(self):
+        return "LitSub!"
+
+    def __repr__(self):
+        return "LitSub?"
+
+
+class PreSub(Prefixed):
+    def __str__(self):
+        return "1*PreSub"
+
+    def __repr__(self):
+        return "PreSub?"
+
+
+class StrLit(str, Literal):       # a str that is also a Literal: characters and .text are set separately
+    def __new__(cls, content, text):
+        return str.__new__(cls, content)
+
+    def __init__(self, content, text):
+        Literal.__init__(self, text=text)
+
+
+class Realish:                    # registered numbers.Real look-alike: not an int, float or Decimal
+    def __float__(self):
+        return 2.5
+
+
+numbers.Real.register(Realish)
+
+
+def str_enum_v(text):             # member is the str `text`, its Enum value is another string
+    class SEV(str, enum.Enum):
+        def __new__(cls, content):
+            obj = str.__new__(cls, content)
+            obj._value_ = "v:" + content
+            return obj
+        M = text
+    return SEV.M
+
+
+def str_enum_t(text):             # member is the str `text`, its Enum value is a tuple (the "value with attributes" idiom)
+    class SET(str, enum.Enum):
+        def __new__(cls, content, extra):
+            obj = str.__new__(cls, content)
+            obj._value_ = (content, extra)
+            return obj
+        M = (text, 3)
+    return SET.M
+
+
+def mkobj(shape, c):
+    if shape == "strenum":
+        return enum.Enum("SE", [("M", uncps(c[0]))], type=str).M
+    if shape == "StrEnum":
+        return enum.StrEnum("StE", [("M", uncps(c[0]))]).M
+    if shape == "strenum_v":
+        return str_enum_v(uncps(c[0]))
+    if shape == "strenum_t":
+        return str_enum_t(uncps(c[0]))
+    if shape == "sxe":
+        return SXE[c[0]]
+    if shape == "intenum":
+        return enum.IntEnum("IE", [("M", int(c[0]))]).M
+    if shape == "intflag":
+        return enum.IntFlag("IF", [("A", 1), ("B", 2)])(int(c[0]))
+    if shape == "fltenum":
+        return enum.Enum("FE", [("M", float.fromhex(c[0]))], type=float).M
+    if shape == "decenum":
+        return enum.Enum("DE", [("M", Decimal(c[0]))], type=Decimal).M
+    if shape == "bool":
+        return bool(int(c[0]))
+    if shape == "strsub":
+        return StrSub(uncps(c[0]))
+    if shape == "intsub":
+        return IntSub(int(c[0]))
+    if shape == "fltsub":
+        return FltSub(float.fromhex(c[0]))
+    if shape == "decsub":
+        return DecSub(c[0])
+    if shape == "litsub":
+        return LitSub(uncps(c[0]))
+    if shape == "presub":
+        return PreSub(number=Decimal(c[0]), prefix=Prefix(c[1]))
+    if shape == "strlit":
+        return StrLit(uncps(c[0]), uncps(c[1]))
+    raise ValueError(shape)
+
+
+def probe(x):
+    """The facets of the live object, measured: which isinstance tests of the parameter path it passes and the content
+    each base class holds (never through __str__ / __repr__ of the object's own class)."""
+    f = dict(none=x is None, str=None, enum=None, lit=None, pre=None, dec=None, int=None, flt=None)
+    if isinstance(x, str):
+        f["str"] = cps(str.__str__(x))
+    if isinstance(x, enum.Enum):
+        f["enum"] = ["some", cps(str.__str__(x.value))] if isinstance(x.value, str) else ["none"]
+    if isinstance(x, Literal):
+        f["lit"] = cps(x.text)
+    if isinstance(x, Prefixed):
+        f["pre"] = [dec(x.number), x.prefix.value]
+    if isinstance(x, Decimal):
+        f["dec"] = dec(Decimal(Decimal.as_tuple(x)))
+    if isinstance(x, int):
+        f["int"] = [int.__repr__(int.__index__(x)), isinstance(x, bool)]
+    if isinstance(x, float):
+        f["flt"] = bits(x)
+    texts = []
+    for fn in (str, repr, lambda v: format(v, "")):
+        try:
+            texts.append(fn(x))
+        except Exception:
+            texts.append(None)
+    return dict(facets=f, cls=type(x).__name__, texts=[None if t is None else cps(t) for t in texts])
+
+
 def mkval(v):
     k = v[0]
     if k == "none":
@@ -97,7 +268,10 @@ def mkval(v):
     if k == "enum":
         return ENUMS[v[1]][v[2]]
     if k == "other":
-        return dict(list=[1, 2], tuple=(1,), bytes=b"ab", complex=1j, dict={"a": 1}, object=Opaque(), set={1})[v[1]]
+        return dict(list=[1, 2], tuple=(1,), bytes=b"ab", complex=1j, dict={"a": 1}, object=Opaque(), set={1},
+                    fraction=fractions.Fraction(1, 3), real=Realish())[v[1]]
+    if k == "obj":
+        return mkobj(v[1], v[2:])
     raise ValueError(k)
 
 
@@ -157,7 +331,16 @@ def do_meta(_):
         prims.append(dict(name=prim.name, primtype=prim.primtype.name, pclass=prim.paramtype.__name__, fields=flds,
                           ports=[p.name for p in prim.port_list]))
     enums = {n: [[m.name, (cps(m.value) if isinstance(m.value, str) else None)] for m in c] for n, c in ENUMS.items()}
-    return dict(prims=prims, prefixes=[[p.name, p.value] for p in Prefix], enums=enums, xp_fields=XP_FIELDS)
+    return dict(prims=prims, prefixes=[[p.name, p.value] for p in Prefix], enums=enums, xp_fields=XP_FIELDS,
+                sxe=[[m.name, cps(m.value)] for m in SXE])
+
+
+def do_probe(j):
+    try:
+        x = mkval(j)
+    except Exception as e:
+        return dict(bad=type(e).__name__ + ": " + str(e)[:200])
+    return probe(x)
 
 
 def do_scalar(j):
@@ -235,7 +418,7 @@ def do_inst(j):
 
 
 def handler(p):
-    f = dict(meta=do_meta, scalar=do_scalar, value=do_value, inst=do_inst)[p["kind"]]
+    f = dict(meta=do_meta, scalar=do_scalar, value=do_value, inst=do_inst, probe=do_probe)[p["kind"]]
     return dict(results=[f(j) for j in p["jobs"]])
 
 
